@@ -66,6 +66,19 @@ fn verify_variants(data: &[u8], decode: DecodeFn) {
     k2.set_alg("ES256");
     let _ = item.verify(&accepting_verifier(), &k2);
   }
+  // the same verifier handed over boxed and as a closure (the two adaptors the library ships)
+  if let Ok(item) = decode(&dec, data, None) {
+    let boxed: Box<dyn identity_verification::jws::JwsVerifier> = Box::new(EdDSAJwsVerifier::default());
+    let _ = item.verify(&boxed, &key);
+  }
+  if let Ok(item) = decode(&dec, data, None) {
+    let f = identity_verification::jws::JwsVerifierFn::from(
+      |input: identity_verification::jws::VerificationInput, k: &Jwk| {
+        identity_verification::jws::JwsVerifier::verify(&EdDSAJwsVerifier::default(), input, k)
+      },
+    );
+    let _ = item.verify(&f, &key);
+  }
   for jwk in JWK_SEEDS {
     if let (Ok(item), Ok(k)) = (decode(&dec, data, None), Jwk::from_json(jwk)) {
       let _ = item.verify(&EdDSAJwsVerifier::default(), &k);
